@@ -248,6 +248,13 @@ func cmdCheck(args []string) int {
 	if len(want) == 0 {
 		return undecided("no obligations in baseline for this property")
 	}
+	// functions whose only obligations are known findings still have to be run
+	for _, e := range base.Obligations {
+		if _, ok := knownByObl[e.Name]; ok {
+			want[e.Name] = e
+			funcs[e.Func] = true
+		}
+	}
 	cfg := Config{TimeoutS: timeout, Jobs: *jobs, WantAll: *tier == "thorough"}
 	got := map[string]*OblResult{}
 	var assumptions = map[string]bool{}
@@ -411,6 +418,12 @@ func cmdCheck(args []string) int {
 				suffix = " no-failing-input-found"
 			}
 			fmt.Printf("VIOLATION property=%s replay=%s obligation=%q status=%s%s\n", prop, path, n, r.Status, suffix)
+		}
+	}
+	for _, kf := range known {
+		if kf.Kind == "finding" && kf.Property == prop && kf.Obligation == "" {
+			fmt.Printf("KNOWN-FINDING: property=%s %s\n", prop, kf.What)
+			knownOut = append(knownOut, kf.What)
 		}
 	}
 	for _, v := range vacuous {
